@@ -662,6 +662,11 @@ func (f *TxFetcher) loop() {
 					if len(f.announced[hash]) == 0 {
 						delete(f.announced, hash)
 					}
+					// the peer may also be an alternate origin of a hash in flight from somebody
+					// else: left there, it would be rescheduled later with no peer to ask, forever
+					if alts := f.alternates[hash]; alts != nil {
+						delete(alts, drop.peer)
+					}
 				}
 				delete(f.announces, drop.peer)
 			}
